@@ -56,9 +56,10 @@ Record store := St {
   meta : list (N * value);      (* MetadataSlab: key -> TensorData *)
   vocab : list N;               (* EntityIndex vocabulary: position = entity id *)
   tomb : list N;                (* tombstoned entity ids *)
-  embs : list (N * N)           (* EmbeddingSlab: entity id -> vector *)
+  embs : list (N * N);          (* EmbeddingSlab: entity id -> vector *)
+  cache : list N                (* CacheRing: keys present (values are not observed; volatile) *)
 }.
-Definition empty_store : store := St [] [] [] [].
+Definition empty_store : store := St [] [] [] [] [].
 
 Fixpoint index_find (voc : list N) (tb : list N) (k : N) (pos : N) : option N :=
   match voc with
@@ -70,25 +71,26 @@ Definition index_get (s : store) (k : N) : option N := index_find (vocab s) (tom
 Definition index_goc (s : store) (k : N) : store * N :=
   match index_get s k with
   | Some id => (s, id)
-  | None => (St (meta s) (vocab s ++ [k]) (tomb s) (embs s), N.of_nat (length (vocab s)))
+  | None => (St (meta s) (vocab s ++ [k]) (tomb s) (embs s) (cache s), N.of_nat (length (vocab s)))
   end.
 Definition index_remove (s : store) (k : N) : store :=
   match index_get s k with
-  | Some id => St (meta s) (vocab s) (id :: tomb s) (embs s)
+  | Some id => St (meta s) (vocab s) (id :: tomb s) (embs s) (cache s)
   | None => s
   end.
 Definition emb_set (s : store) (id vec : N) : store :=
-  if dimok vec then St (meta s) (vocab s) (tomb s) (aset (embs s) id vec) else s.
+  if dimok vec then St (meta s) (vocab s) (tomb s) (aset (embs s) id vec) (cache s) else s.
 Definition emb_del (s : store) (id : N) : store :=
-  St (meta s) (vocab s) (tomb s) (adel (embs s) id).
+  St (meta s) (vocab s) (tomb s) (adel (embs s) id) (cache s).
 Definition meta_set (s : store) (k : N) (v : value) : store :=
-  St (aset (meta s) k v) (vocab s) (tomb s) (embs s).
+  St (aset (meta s) k v) (vocab s) (tomb s) (embs s) (cache s).
 Definition meta_del (s : store) (k : N) : store :=
-  St (adel (meta s) k) (vocab s) (tomb s) (embs s).
+  St (adel (meta s) k) (vocab s) (tomb s) (embs s) (cache s).
 
-(* SlabRouter::put (cache-class keys never reach the model's slabs: they are not observed) *)
+(* SlabRouter::put (of a cache-class key only its presence is tracked: values are not observed) *)
 Definition put (s : store) (k : N) (v : value) : store :=
-  if is_cache k then s
+  if is_cache k then
+    St (meta s) (vocab s) (tomb s) (embs s) (if existsb (N.eqb k) (cache s) then cache s else k :: cache s)
   else if is_emb k then
     let '(s1, id) := index_goc s k in
     let s2 := match vemb v with Some vec => emb_set s1 id vec | None => s1 end in
@@ -98,15 +100,16 @@ Definition put (s : store) (k : N) (v : value) : store :=
 Definition has_meta (s : store) (k : N) : bool :=
   match aget (meta s) k with Some _ => true | None => false end.
 Definition exists_key (s : store) (k : N) : bool :=
-  if is_cache k then false
+  if is_cache k then existsb (N.eqb k) (cache s)
   else if is_emb k then (match index_get s k with Some _ => true | None => false end) || has_meta s k
   else has_meta s k.
 
 (* SlabRouter::delete : (state, succeeded).  [ghost_fixed] = the entity-index entry is dropped
    for every key class (true after the fix; the translator reads it from the source). *)
 Definition delete (ghost_fixed : bool) (s : store) (k : N) : store * bool :=
-  if is_cache k then (s, false)
-  else if negb (exists_key s k) then (s, false)
+  if negb (exists_key s k) then (s, false)
+  else if is_cache k then
+    (St (meta s) (vocab s) (tomb s) (embs s) (filter (fun x => negb (N.eqb x k)) (cache s)), true)
   else if is_emb k then
     let s1 := match index_get s k with Some id => emb_del s id | None => s end in
     (meta_del (index_remove s1 k) k, true)
@@ -139,9 +142,11 @@ Definition obs_eqb : obs -> obs -> bool :=
 
 (* ---------------------------------------------------------------- what the durable calls log *)
 (* put_durable: entries written (in order) and the state after the index side effect *)
-Definition log_put (s : store) (k : N) (v : value) : list wentry * store :=
+Definition log_put (meta_first : bool) (s : store) (k : N) (v : value) : list wentry * store :=
   match vemb v with
-  | Some vec => let '(s1, id) := index_goc s k in ([EmbSet id vec; MetaSet k v], s1)
+  | Some vec =>
+      let '(s1, id) := index_goc s k in
+      ((if meta_first then [MetaSet k v; EmbSet id vec] else [EmbSet id vec; MetaSet k v]), s1)
   | None => ([MetaSet k v], s)
   end.
 Definition log_del (s : store) (k : N) : list wentry :=
@@ -198,7 +203,8 @@ Definition all_operations (es : list wentry) : list wentry :=
   let r := fold_left rec_step es rs0 in r_ops r ++ r_committed r.
 
 (* ---------------------------------------------------------------- the durable store *)
-Record cfg := Cfg { ghost_fixed : bool; replay_index_fixed : bool; tail_repair : bool }.
+Record cfg := Cfg { ghost_fixed : bool; replay_index_fixed : bool; tail_repair : bool;
+                    meta_first : bool (* put_durable logs MetadataSet before EmbeddingSet *) }.
 
 Section Durable.
 Variable ser : wentry -> list byte.
@@ -223,11 +229,12 @@ Inductive op := Put (k : N) (v : value) | Del (k : N) | Ckpt.
 Definition step (d : dstore) (o : op) : dstore * bool :=
   match o with
   | Put k v =>
-      if is_cache k then (d, true)
-      else let '(es, s1) := log_put (st d) k v in
+      if is_cache k then (D (put (st d) k v) (file d) (snap d) (ctr d), true)
+      else let '(es, s1) := log_put (meta_first c) (st d) k v in
            (D (put s1 k v) (append (file d) es) (snap d) (ctr d), true)
   | Del k =>
-      if is_cache k then (d, false)   (* cache keys are never present in the model *)
+      if is_cache k then
+        let '(s1, ok) := delete (ghost_fixed c) (st d) k in (D s1 (file d) (snap d) (ctr d), ok)
       else let es := log_del (st d) k in
            let '(s1, ok) := delete (ghost_fixed c) (st d) k in
            (D s1 (append (file d) es) (snap d) (ctr d), ok)
